@@ -101,8 +101,14 @@ fn main() {
                     // histories whose results explode in size are replaced (the model driver is
                     // polynomial in the expression size); the impl is run on them all the same
                     let mut tries = 0;
+                    if std::env::var("EXMEX_VERIF_DEBUG_GEN").is_ok() {
+                        eprintln!("probe {} {}", i, line);
+                    }
                     while tries < 50 && run_line(&line).len() > 6000 {
                         line = k_hist::gen(&mut rng, tier, i, &mut stats, profile);
+                        if std::env::var("EXMEX_VERIF_DEBUG_GEN").is_ok() {
+                            eprintln!("probe {} {}", i, line);
+                        }
                         tries += 1;
                         *stats.entry("oversize_replaced".into()).or_insert(0) += 1;
                     }
